@@ -98,8 +98,13 @@ func (in *InExpr) Resolve(types []reflect.Type, isVariadic bool) error {
 func (in *InExpr) Eval(input []reflect.Value, isVariadic bool) (bool, error) {
 	if isVariadic {
 		// 可变参数需要展开参数数组
+		// only the trailing variadic slice is expanded, leading fixed parameters are kept
 		expandArgs := make([]reflect.Value, 0)
-		for _, v := range input {
+		for j, v := range input {
+			if j < len(input)-1 {
+				expandArgs = append(expandArgs, v)
+				continue
+			}
 			rv := reflect.ValueOf(v.Interface())
 			for i := 0; i < rv.Len(); i++ {
 				expandArgs = append(expandArgs, rv.Index(i))
